@@ -574,3 +574,75 @@ func init() {
 			}
 		}})
 }
+
+// ---------------------------------------------------------------------------------------------
+// Pairs of features that meet in the writer: S/MIME signing with every file and part encoding (C18: the line
+// discipline holds inside a signed entity too), and the wire view of the recipient list (C06).
+
+func init() {
+	register(Suite{Name: "c18-signed", Property: "C18",
+		Rule: "S/MIME signed messages of generated shapes with every part and file encoding (8bit / 7bit files with long lines and LF line ends included): the whole rendering - signed entity and signature part - obeys the line rules: CRLF only in header sections and encoded bodies, encoded body lines of at most 76 characters, a body is encoded as its label says; oracle only",
+		Run: func(c *Ctx) {
+			n := c.N(120, 6000)
+			for i := 0; i < n; i++ {
+				r := c.Rng
+				spc := genSpec(r, genOpts{maxParts: 2, maxFiles: 3, noFails: true})
+				spc.Boundary = ""
+				if len(spc.Parts)+len(spc.Files) == 0 {
+					continue
+				}
+				for j := range spc.Parts {
+					spc.Parts[j].Content = canonCRLF(spc.Parts[j].Content)
+					spc.Parts[j].chunks = nil
+				}
+				for j := range spc.Files {
+					if r.Chance(50) {
+						spc.Files[j].Enc = []string{"8bit", "7bit", "quoted-printable", "base64"}[r.Intn(4)]
+					}
+				}
+				spc.SMIME = []string{"rsa", "ecdsa"}[r.Intn(2)]
+				m, _, err := spc.Build()
+				if err != nil {
+					continue
+				}
+				for k := 0; k < 2; k++ {
+					res := renderOnce(m, -1)
+					if res.panic != nil || res.err != nil {
+						break // (C08 / C11 look at failing signed renders)
+					}
+					oracleLines(c, spc, res.out)
+					oracleEncodedAsLabelled(c, spc, res.out)
+				}
+				c.Count(true, fmt.Sprint(i), spc.SMIME+":"+spc.shape())
+			}
+		}})
+}
+
+// oracleEncodedAsLabelled: a leaf whose Content-Transfer-Encoding says base64 carries nothing but the base64
+// alphabet, one that says quoted-printable nothing but printable ASCII with valid escapes
+func oracleEncodedAsLabelled(c *Ctx, spc *MsgSpec, out []byte) {
+	ent, err := parseEntity(out, 0)
+	if err != nil {
+		return
+	}
+	c.rep.OracleChecked++
+	for i, l := range ent.leaves() {
+		cte, _ := l.Get("Content-Transfer-Encoding")
+		switch strings.ToLower(strings.TrimSpace(cte)) {
+		case "base64":
+			for _, b := range l.Body {
+				if !(b >= 'A' && b <= 'Z' || b >= 'a' && b <= 'z' || b >= '0' && b <= '9' || b == '+' || b == '/' || b == '=' || b == '\r' || b == '\n') {
+					c.Violate("c18-body-not-as-labelled", fmt.Sprintf("leaf %d is labelled base64 but its body contains the byte 0x%02x", i, b), spc)
+					return
+				}
+			}
+		case "quoted-printable":
+			for _, b := range l.Body {
+				if b >= 0x80 || (b < 0x20 && b != '\r' && b != '\n' && b != '\t') {
+					c.Violate("c18-body-not-as-labelled", fmt.Sprintf("leaf %d is labelled quoted-printable but its body contains the byte 0x%02x", i, b), spc)
+					return
+				}
+			}
+		}
+	}
+}
